@@ -313,6 +313,40 @@ def handle : List String → String
       showOut (wrap sig f (Vals.toList xs))
     | none, _ => "nosig"
     | _, _ => "error\tbad-value"
+  | ["rxglue", name, args, res] =>
+    -- a wrapper of modules/regexp (for a method the receiver — the source of the compiled
+    -- pattern — is the first argument) around a Go call whose outcome is `res`:
+    -- `panic`, `error`, or a value
+    match findRx name, parseField args with
+    | some w, some (.list xs) =>
+      let f : GoFunE := fun _ =>
+        if res = "panic" then .panic
+        else if res = "error" then .error
+        else match (parseField res).bind goValOf with
+          | some g => .val g
+          | none => .panic
+      showOut (rxWrap w f (fun _ => .panic) (Vals.toList xs))
+    | none, _ => "nosig"
+    | _, _ => "error\tbad-value"
+  | ["expand", tmpl, groups, names] =>
+    -- Go's template expansion for one match: groups `n` (took no part) / `s<hex>`, names `s<hex>`
+    let grp : String → Option (Option Bytes) := fun t =>
+      match t.toList with
+      | ['n'] => some none
+      | 's' :: cs => (fromHex (String.ofList cs)).map some
+      | _ => none
+    let nm : String → Option Bytes := fun t =>
+      match t.toList with
+      | 's' :: cs => fromHex (String.ofList cs)
+      | _ => none
+    match fromHex tmpl, parseAll grp ((groups.splitOn " ").filter (· ≠ "")), parseAll nm ((names.splitOn " ").filter (· ≠ "")) with
+    | some t, some gs, some ns => toHexField (expand gs ns t)
+    | _, _, _ => "error\tbad-request"
+  | ["replit", subj, lit, repl] =>
+    -- ReplaceAllString for a non-empty literal pattern, and strings.ReplaceAll beside it
+    match fromHex subj, fromHex lit, fromHex repl with
+    | some s, some l, some r => toHexField (regexpReplaceAllLit s l r) ++ "\t" ++ toHexField (stringsReplaceAll s l r)
+    | _, _, _ => "error\tbad-request"
   | ["panics", name, args] =>
     match findSig name, parseField args with
     | some sig, some (.list xs) =>
